@@ -79,6 +79,11 @@ func canonCondWith(e ast.Expr, neg bool, leaf func(ast.Expr) string) string {
 				op = negateOp(op)
 			}
 			ls, rs := leaf(stripParens(l)), leaf(stripParens(r))
+			// comparison of a boolean with a constant: x == true, x != false  →  x;  x != true, x == false  →  !x
+			if (rs == "true" || rs == "false") && (op == token.EQL || op == token.NEQ) {
+				wantTrue := (rs == "true") == (op == token.EQL)
+				return canonCondWith(stripParens(l), !wantTrue, leaf)
+			}
 			if strings.HasPrefix(ls, "len(") && strings.HasSuffix(ls, ")") {
 				switch {
 				case (op == token.NEQ && rs == "0") || (op == token.GEQ && rs == "1"):
